@@ -28,7 +28,11 @@ type SigInfo struct {
 // xref increment numbers under which the reader filed the signatures (the reader counts the
 // newest xref section as 1; shift=1 presents it as increment 0 = "current revision").
 // A panic inside pdfcpu is returned as an error starting with "PANIC".
-func Validate(b []byte, shift int) (infos []SigInfo, err error) {
+func Validate(b []byte, shift int) (infos []SigInfo, err error) { return ValidateAll(b, shift, true) }
+
+// ValidateAll is Validate with the "all" flag of ValidateSignatures (false: only the
+// authoritative / certified signature and its first signer).
+func ValidateAll(b []byte, shift int, all bool) (infos []SigInfo, err error) {
 	defer func() {
 		if r := recover(); r != nil {
 			err = fmt.Errorf("PANIC: %v", r)
@@ -97,7 +101,7 @@ func Validate(b []byte, shift int) (infos []SigInfo, err error) {
 	for i := range infos {
 		byObj[infos[i].ObjNr] = &infos[i]
 	}
-	results, err := pdfcpu.ValidateSignatures(rs, ctx, true)
+	results, err := pdfcpu.ValidateSignatures(rs, ctx, all)
 	if err != nil {
 		return infos, err
 	}
